@@ -16,6 +16,11 @@ Monitors
   progress      (H2) when the run is quiescent with streams still held, every stream that is not held/killed is complete
   once          after the run each passed/resumed message reached its destination exactly once, with the user's edit, as
                 read by an independent decoder (vf/ref/http1.py, h2 library peers, vf/ref/c11_wire.py)
+  edit_matrix   (fixed enumeration, run before the random cases) a WebSocket message of 1-4 frames, text or binary, either
+                direction, is intercepted, edited and resumed for every edit class -- same length / shorter / longer / empty /
+                larger than one re-chunk unit; ASCII, or a 2-, 3-, 4-byte character starting at every offset from boundary-k to
+                boundary+1 of every original frame boundary, or nothing but multi-byte characters at every byte shift --: what
+                the destination decodes (own RFC 6455 reader) equals the edited message octet for octet, as one message
   kill.nothing  nothing of the flow is forwarded after the kill (proxy-made error signals -- close, RST_STREAM,
                 SERVFAIL -- are not forwarding)
   kill.torn_down once the layer saw any further connection event after the kill (data, control frame, peer half-close or
@@ -39,9 +44,9 @@ from vf.ref import c11_wire as wire
 PROPERTY = "C11"
 LEVEL = "exploration"
 ENGINE = "sansio"
-BUDGET = {"quick": (500, 14), "thorough": (40000, 230)}
+BUDGET = {"quick": (560, 14), "thorough": (40000, 230)}
 WORKERS = {"quick": 4, "thorough": 16}
-REQUIRED = ["frozen", "handoff", "progress", "once", "kill.nothing", "kill.error", "kill.torn_down", "held_with_events"]
+REQUIRED = ["frozen", "handoff", "progress", "once", "edit_matrix", "kill.nothing", "kill.error", "kill.torn_down", "held_with_events"]
 TECHNIQUE = "runtime monitoring: sans-io schedule exploration with withheld hook completions; per-step frozen-destination monitor + independent wire decoders"
 RULE = (
     "case = (protocol in h1/h2/ws/tcp/udp/dns, generated messages with unique tags, intercept filter for the real Intercept addon, "
@@ -100,6 +105,7 @@ class Session:
         self.transit_after = r.choice([r.randint(1, 40), r.randint(1, 40), 10**6])  # 10**6: when the run is quiescent (layer idle)
         self.transit_pending = self.transit_planned
         self.transit_force = False
+        self.force_action = None  # fixed user action (edit matrix)
         self.start_kill = {}  # hook name -> probability of an addon killing the flow in that (non-message) hook
         self.pre_teardown = None
         self.records = []
@@ -159,7 +165,9 @@ class Session:
             f.intercepted = False
             return None
         action = "kill" if self.r.random() < self.user_kill else "resume"
-        if rec["tag"] is not None and self.edit is not None and self.r.random() < 0.5 and rec.get("editable", True):
+        if self.force_action is not None and rec["tag"] is not None:
+            action = self.force_action
+        if self.force_action is None and rec["tag"] is not None and self.edit is not None and self.r.random() < 0.5 and rec.get("editable", True):
             action = "edit+" + action
         if rec.get("absent") is not None:
             self.ctx.count("frozen")
@@ -592,14 +600,14 @@ def run_dns_case(ctx, opts, loop, proto):
     to_client = [wire.dns_read(data) for (step, c, data) in d.out_log if c is d.client]
     witness = {"proto": "dns", "hooks": d.hook_names(), "records": [(x["hook"], x["tag"], x["decision"]) for x in S.records], "kills": [(k["hook"], k["how"]) for k in S.kills],
                "to_server": to_server, "to_client": to_client, "retransmit": len(segs) > n}
-    killed_ids = {}
+    killed_flows = {}  # by flow object: the layer starts a NEW flow when a client reuses the id of an answered query
     for k in S.kills:
-        killed_ids.setdefault(k["flow"].request.id, k)
+        killed_flows.setdefault(id(k["flow"]), k)
     for rec in S.records:
         qid = rec["qid"]
         if rec["decision"] not in ("pass", "hold:resume", "hold:edit+resume"):
             continue
-        k = killed_ids.get(qid)
+        k = killed_flows.get(id(rec["flow"]))
         if k is not None and k["hook_idx"] <= rec["hook_idx"]:
             continue
         ctx.count("once")
@@ -615,7 +623,12 @@ def run_dns_case(ctx, opts, loop, proto):
             n_hooks = sum(1 for x in S.records if x["hook"] == "dns_response" and x["qid"] == qid and x["final"] == rec["final"])
             if len(got) != n_hooks and d.client not in d.closed_delivered:
                 S.violate("response-not-delivered-exactly-once", {**witness, "id": qid, "final_rdata": rec["final"], "delivered": len(got), "expected": n_hooks})
-    for qid, k in killed_ids.items():
+    for k in killed_flows.values():
+        qid = k["flow"].request.id
+        own = [x["hook_idx"] for x in S.records if x["flow"] is k["flow"]]
+        if own and any(x["qid"] == qid and x["flow"] is not k["flow"] and min(own) < x["hook_idx"] < k["hook_idx"] for x in S.records):
+            ctx.count("kill.stale_flow")  # an answered flow whose id a newer flow took over before the kill: nothing of it is left to forward or end
+            continue
         ctx.count("kill.nothing")
         later = []
         for step, c, data in d.out_log[k["out_idx"] :]:
@@ -1062,6 +1075,13 @@ def run_ws_case(ctx, opts, loop, proto):
         }
 
     def edit(rec):
+        if r.random() < 0.3 and len(rec["orig"]) >= len(rec["tag"]) + 7:
+            # same byte length as the original, filled with 2-4 byte characters (fragment boundaries fall inside characters)
+            ch = WS_CHARS[r.choice([2, 3, 4])]
+            room = len(rec["orig"]) - len(rec["tag"]) - 3
+            body = b"e" * r.randrange(len(ch)) + ch * (room // len(ch))
+            rec["msg"].content = b"<" + rec["tag"] + b":" + (body + b"e" * room)[:len(body)] + b"e" * (room - len(body)) + b">" if len(body) <= room else rec["orig"]
+            return
         rec["msg"].content = b"<" + rec["tag"] + b":EDITED" + bytes(r.choice(b"XYZ") for _ in range(r.choice([0, 5, 9, 5000]))) + b">"
 
     S = Session(ctx, r, loop, "ws", describe, edit, transit=0.3)
@@ -1162,6 +1182,124 @@ def run_ws_case(ctx, opts, loop, proto):
 
 
 # --------------------------------------------------------------------------------------------------------------
+# WebSocket edit matrix: a fixed enumeration of (fragment layout, message type, direction, user edit) run before the random cases
+# --------------------------------------------------------------------------------------------------------------
+WS_LAYOUTS = ([8], [4, 4], [3, 5, 2], [2, 3, 4, 3])
+WS_CHARS = {1: b"x", 2: "\u00e9".encode(), 3: "\u20ac".encode(), 4: "\U0001f600".encode()}
+
+
+def _fill(n, alphabet=b"abcdefghijklmnopqrstuvwxyz"):
+    return bytes(alphabet[i % len(alphabet)] for i in range(n))
+
+
+def ws_edit_matrix():
+    """[(layout, is_text, from_client, original, edited, label)] -- deterministic, independent of seeds."""
+    out = []
+    for layout in WS_LAYOUTS:
+        total = sum(layout)
+        bounds = [sum(layout[: i + 1]) for i in range(len(layout) - 1)]
+        orig_ascii = _fill(total, b"ABCDEFGHIJKLMNOPQRSTUVWXYZ")
+        edits = []
+        # length classes with ASCII only
+        edits += [("same/ascii", _fill(total)), ("shorter/ascii", _fill(total - 1)), ("longer/ascii", _fill(total + 3)), ("empty", b""), ("one-byte", b"q")]
+        for k in (2, 3, 4):
+            ch = WS_CHARS[k]
+            # same byte length, one k-byte character starting at boundary-k .. boundary+1 (every straddling position, on and next to the boundary)
+            for b in bounds or [total // 2]:
+                for start in range(b - k, b + 2):
+                    if 0 <= start and start + k <= total:
+                        edits.append((f"same/{k}-byte-char@{start}(boundary {b})", _fill(start) + ch + _fill(total - start - k)))
+            # dense: nothing but k-byte characters after an s-byte ASCII prefix -- every boundary falls inside a character
+            for shift in range(k):
+                for cls, n in (("same", total), ("shorter", total - 1), ("longer", total + 5)):
+                    body = _fill(shift) + ch * ((n - shift) // k)
+                    body += _fill(n - len(body))
+                    edits.append((f"{cls}/dense-{k}-byte+{shift}", body))
+        # an original that already contains multi-byte characters (frames cut at character boundaries), edited to the same length
+        if len(layout) > 1:
+            orig_mb = b"".join((WS_CHARS[2] * (fl // 2) + b"z" * (fl % 2)) for fl in layout)
+            out_mb = [("same/3-byte-over-2-byte-original", (WS_CHARS[3] * (total // 3)) + _fill(total % 3))]
+        else:
+            orig_mb, out_mb = None, []
+        for from_client in (True, False):
+            for label, new in edits:
+                out.append((layout, True, from_client, orig_ascii, new, label))
+            for label, new in out_mb:
+                out.append((layout, True, from_client, orig_mb, new, label))
+            # binary: arbitrary octets, including sequences that are not UTF-8, must arrive untouched
+            for label, new in (("same/binary", bytes((0xC3, 0x28, 0xFF, 0x00, 0xE2, 0x82) * 3)[:total]), ("shorter/binary", b"\xff\xfe\x00"), ("longer/binary", bytes(range(240, 256)) + b"\xe2\x82"), ("empty", b""),
+                               ("same/3-byte-char-on-boundary", _fill(max(0, (bounds or [2])[0] - 1)) + WS_CHARS[3] + _fill(total - max(0, (bounds or [2])[0] - 1) - 3))):
+                out.append((layout, False, from_client, orig_ascii, new, label))
+    # edits larger than one re-chunk unit (FRAGMENT_SIZE): the proxy chooses the boundaries itself
+    for k in (2, 3, 4):
+        for shift in range(k):
+            n = 8100 + shift
+            body = _fill(shift) + WS_CHARS[k] * ((n - shift) // k)
+            for from_client in (True, False):
+                out.append(([3, 5, 2], True, from_client, _fill(10, b"ABCDEFGHIJ"), body + _fill(n - len(body)), f"rechunk/dense-{k}-byte+{shift}"))
+    out.append(([4, 4], False, True, _fill(8), bytes(range(256)) * 40, "rechunk/binary"))
+    return out
+
+
+def run_ws_matrix_case(ctx, opts, loop, item):
+    from vf import h1case
+
+    layout, is_text, from_client, original, edited, label = item
+    r = ctx.rng
+    client = sansio.make_client("regular")
+    handshake = (b"GET http://example.com/ws-matrix HTTP/1.1\r\nHost: example.com\r\nConnection: Upgrade\r\nUpgrade: websocket\r\n"
+                 b"Sec-WebSocket-Version: 13\r\nSec-WebSocket-Key: dGhlIHNhbXBsZSBub25jZQ==\r\n\r\n")
+    op = wire.OP_TEXT if is_text else wire.OP_BIN
+    frames, pos = [], 0
+    for j, fl in enumerate(layout):
+        frames.append(wire.ws_frame(op if j == 0 else wire.OP_CONT, original[pos : pos + fl], fin=(j == len(layout) - 1), mask=(bytes(r.getrandbits(8) for _ in range(4)) if from_client else None)))
+        pos += fl
+
+    def describe(drv, hook, f):
+        if hook.name != "websocket_message":
+            return None
+        m = f.websocket.messages[-1]
+        dest = f.server_conn if m.from_client else drv.client
+        return {"tag": b"matrix", "side": "server" if m.from_client else "client", "msg": m, "orig": bytes(m.content),
+                "metric": lambda: len(ws_frames(bytes(drv.out[dest]))), "absent": lambda: len(ws_frames(bytes(drv.out[dest]))) == 0,
+                "capture": lambda: (bytes(m.content), bool(m.dropped))}
+
+    def edit(rec):
+        m = rec["msg"]
+        if is_text and r.random() < 0.5:
+            m.text = edited.decode("utf-8")  # the two public ways to edit a text message
+        else:
+            m.content = edited
+
+    S = Session(ctx, r, loop, "ws", describe, edit, p_intercept=1.0, p_kill=0.0, user_kill=0.0, transit=0.0)
+    S.force_action = "edit+resume"
+    origin = WsOrigin([] if from_client else [(fr, 0) for fr in frames], r)
+    d = sansio.Driver(
+        h1case.top_factory("regular"), client=client, options=opts, rng=r, addons=[h1case.ForceHttp()], policy=S.policy,
+        server_factory=lambda drv, conn: origin, schedule=r.choice(["random", "fifo"]), m3=[S.m3], max_steps=800,
+    )
+    up = lambda dd: b"\r\n\r\n" in dd.out[client]
+    segs = [handshake] + ([(fr, up) for fr in frames] if from_client else [])
+    d.attach_client_peer(sansio.ScriptPeer(segs))
+    S.drive(d)
+    server = d.servers[0] if d.servers else None
+    dest_out = bytes(d.out[server]) if (from_client and server is not None) else (bytes(d.out[client]) if not from_client else b"")
+    got = ws_data(dest_out)[0]
+    witness = {"proto": "ws-matrix", "layout": layout, "type": "text" if is_text else "binary", "direction": "client->server" if from_client else "server->client", "edit": label,
+               "original": original, "edited": edited[:200], "edited_len": len(edited), "hooks": d.hook_names(), "records": [(x["hook"], x["decision"]) for x in S.records],
+               "frames_to_destination": [(fin, o, len(pl)) for fin, o, _m, pl in ws_frames(dest_out)][:12], "exceptions": [e[:3] for e in d.exceptions]}
+    ctx.count("once")
+    ctx.count("edit_matrix")
+    recs = [x for x in S.records if x["hook"] == "websocket_message"]
+    if len(recs) != 1 or recs[0]["orig"] != original or recs[0]["decision"] != "hold:edit+resume":
+        S.violate("matrix-message-not-intercepted-as-sent", {**witness, "recorded": [x["orig"] for x in recs]})
+    elif got != [(op, edited)]:
+        bad = [(o, pl[:200], len(pl)) for o, pl in got]
+        S.violate("delivered-message-differs-from-the-users-edit", {**witness, "destination_decoded": bad, "replacement_characters": sum(pl.count("\ufffd".encode()) for o, pl in got)})
+    return S, d, (tuple(layout), is_text, from_client, label.split("@")[0]), witness
+
+
+# --------------------------------------------------------------------------------------------------------------
 # run
 # --------------------------------------------------------------------------------------------------------------
 
@@ -1183,9 +1321,21 @@ def run(ctx):
     ctx.c11_intercept = addons[-1]
     loop = asyncio.new_event_loop()
     ping0 = opts.http2_ping_keepalive
+    matrix = [m for k, m in enumerate(ws_edit_matrix()) if k % ctx.nworkers == ctx.worker]
     try:
         for i in ctx.cases():
             r = ctx.rng
+            if i < len(matrix):
+                opts.update(intercept=None, http2_ping_keepalive=0)
+                res = ctx.guard(run_ws_matrix_case, ctx, opts, loop, matrix[i], what="c11 ws edit matrix case")
+                if res is None:
+                    ctx.case(("aborted", "ws-matrix"), False)
+                    continue
+                S, d, feats, witness = res
+                for kind, w, mech in S.violations:
+                    ctx.violation(kind, {**witness, **w}, mech)
+                ctx.case(("ws-matrix",) + feats, True, {"proto": "ws-matrix", "layout": witness["layout"], "type": witness["type"], "direction": witness["direction"], "edit": witness["edit"]})
+                continue
             proto = PROTOS[(i + ctx.worker) % len(PROTOS)] if r.random() < 0.7 else r.choice(PROTOS)
             filt = r.choice(FILTERS[proto])
             opts.update(intercept=filt, http2_ping_keepalive=0)  # (keep-alive PING timers would re-arm for ever on a timeless driver)
